@@ -93,6 +93,9 @@ class RSAAlgModel(JWSAlgModel):
 
     def verify(self, msg: bytes, sig: bytes, key: RSAKey) -> bool:
         op_key = key.get_op_key("verify")
+        # RFC 8017 8.1.2 / 8.2.2 step 1: the signature has the length of the modulus
+        if len(sig) != (op_key.key_size + 7) // 8:
+            return False
         try:
             op_key.verify(sig, msg, self.padding, self.hash_alg())
             return True
@@ -178,6 +181,9 @@ class RSAPSSAlgModel(JWSAlgModel):
 
     def verify(self, msg: bytes, sig: bytes, key: RSAKey) -> bool:
         op_key = key.get_op_key("verify")
+        # RFC 8017 8.1.2 / 8.2.2 step 1: the signature has the length of the modulus
+        if len(sig) != (op_key.key_size + 7) // 8:
+            return False
         try:
             op_key.verify(sig, msg, self.padding, self.hash_alg())
             return True
